@@ -16,6 +16,9 @@ EXPLANATION = (
 EXPLANATION += (  # round-3 supplement
     " O5 multiplicity: once-children before the generated loop header, per-iteration children inside the loop. O6 children are visited by traversing the AST node's own list, never by lookup."
 )
+EXPLANATION += (
+    ' O7 (= C01.T7) the arms tried for a variant are its own arms and the wildcard arms selected from the complete arm list in source order.'
+)
 ASSUMPTIONS = [
     "each call of Lowerer::expr appends the code of that sub-expression to the current block (emission order = visit order)",
     "the back end (lir lowering, cranelift) preserves the order of instructions within a block",
@@ -696,6 +699,19 @@ def rule_o6(F):
     return r
 
 
+def rule_o7(F):
+    """Guards are tried in source order and only for the arms that can match: the chain of arms tried for a variant consists of that
+    variant's own arms and the wildcard arms, in the order of the COMPLETE arm list (shared with C01.T7, which compares the predicate
+    of the default chain with the wildcard part of the per-variant chains)."""
+    from . import c01
+    r = c01.rule_t7(F)
+    r.rule = "C08.O7"
+    r.desc = "match: the arms tried for a variant are selected from the complete arm list (own arms and wildcard arms, in source order)"
+    for v in r.violations:
+        v.rule = "C08.O7"
+    return r
+
+
 def rules(ctx):
     F = ctx["F"]
-    return [rule_o1(F), rule_o2(F), rule_o3(F), rule_o4(F), rule_o5(F), rule_o6(F)]
+    return [rule_o1(F), rule_o2(F), rule_o3(F), rule_o4(F), rule_o5(F), rule_o6(F), rule_o7(F)]
